@@ -351,7 +351,31 @@ def template_kxr(rng):
     return fen_of(b, "w", cas)
 
 
-TEMPLATES = [("many", template_many_queens), ("kxr", template_kxr), ("pin", template_pin), ("check", template_check), ("ep", template_ep),
+ENDGAME_SIDES = ["", "B", "N", "R", "Q", "BB", "BN", "NN", "RB", "RN", "RR", "QR", "QB", "QN", "QQ", "BBN", "RBN"]
+
+
+def template_endgame(rng):
+    """sparse material: every pairing of small material signatures (bishop pairs of equal / opposite colours, lone minors, ...) with 0..4 pawns a side"""
+    w, bl = rng.choice(ENDGAME_SIDES), rng.choice(ENDGAME_SIDES)
+    if rng.random() < 0.35:
+        w, bl = "B", "B"            # one bishop each: same- and opposite-coloured
+    b = {}
+    free = list(range(64))
+    rng.shuffle(free)
+    b[free.pop()] = "K"
+    b[free.pop()] = "k"
+    for ch in w:
+        b[free.pop()] = ch
+    for ch in bl:
+        b[free.pop()] = ch.lower()
+    pf = [x for x in free if 8 <= x < 56]
+    for ch, n in (("P", rng.randrange(0, 5)), ("p", rng.randrange(0, 5))):
+        for _ in range(n):
+            b[pf.pop()] = ch
+    return fen_of(b, rng.choice("wb"), "-", "-", rng.choice([0, 0, 3, 40]), rng.randrange(1, 80))
+
+
+TEMPLATES = [("endgame", template_endgame), ("many", template_many_queens), ("kxr", template_kxr), ("pin", template_pin), ("check", template_check), ("ep", template_ep),
              ("castle960", template_castle), ("promo", template_promo)]
 
 
@@ -375,7 +399,9 @@ def template_positions(rng, n):
 
 def build_pool(run, n_playouts, plies, n_templates, tag):
     """positions of D with their provenance class; cached per (seed, sizes, model stamp)"""
+    import hashlib
     stamp = open(os.path.join(vlib.BUILD, "modelrun.stamp")).read()[:16]
+    stamp = hashlib.sha256((stamp + open(os.path.abspath(__file__)).read()).encode()).hexdigest()[:16]     # generator changes rebuild the pool
     cache = os.path.join(vlib.BUILD, f"pool_{tag}_{run.seed}_{n_playouts}_{plies}_{n_templates}_{stamp}.json")
     if os.path.exists(cache):
         return json.load(open(cache))
@@ -419,6 +445,9 @@ def build_pool(run, n_playouts, plies, n_templates, tag):
                 seen.add(x)
                 pool.append({"cls": "playout-" + c, "fen": x})
     res = {"pool": pool, "games": games}
+    import glob
+    for old in glob.glob(os.path.join(vlib.BUILD, f"pool_{tag}_{run.seed}_{n_playouts}_{plies}_{n_templates}_*.json")):
+        os.remove(old)
     json.dump(res, open(cache, "w"))
     return res
 
